@@ -341,6 +341,9 @@ structure ImportsOpt where
   opt : Bool
   provided : Bool
 
+/-- resolve.go 215–219: `testImports | optImports | providedImports` for the first element only. -/
+def optsOf (first : Bool) : ImportsOpt := { test := first, opt := first, provided := first }
+
 def filterImport (o : ImportsOpt) (imp : Import) : Bool :=
   if !o.test && imp.typ.hasAttr C07Consts.keyTest then false
   else if !o.opt && imp.typ.hasAttr C07Consts.keyOpt then false
@@ -348,11 +351,14 @@ def filterImport (o : ImportsOpt) (imp : Import) : Bool :=
   else if !o.provided && imp.typ.getAttr C07Consts.keyScope == some C07Consts.scopeProvided then false
   else true
 
+/-- The exclusions a declaration carries (`dep.MavenExclusions`, parsed). -/
+def declaredExclusions (t : DepType) : Option (List Bytes) :=
+  match t.getAttr C07Consts.keyExclusions with
+  | some s => parseExclusions s
+  | none => none
+
 def toDep (imp : Import) : Dep :=
-  { name := imp.name, req := imp.req, typ := imp.typ
-    exclusions := match imp.typ.getAttr C07Consts.keyExclusions with
-      | some s => parseExclusions s
-      | none => none }
+  { name := imp.name, req := imp.req, typ := imp.typ, exclusions := declaredExclusions imp.typ }
 
 /-- `(*resolver).imports`; `none` = the (wrapped) client error. -/
 def imports (u : Universe) (vk : VK) (o : ImportsOpt) : Option (List Dep) :=
@@ -393,13 +399,18 @@ def reqsAfter (m : ReqMap) (pk : PackageKey) (ver : Bytes) : ReqMap :=
 /-- `concreteVersions[cur.versionKey]` (0 when absent, as a Go map read). -/
 def curIdOf (s : State) (cur : Todo) : Nat := (s.concreteVersions.lookup cur.key).getD 0
 
+/-- resolve.go 369, 377–380: `exclusions: cur.exclusions`, and when the declaration has its
+own, `mergeExclusions(d.exclusions, cur.exclusions); n.exclusions = d.exclusions`. -/
+def mergeExcl (own parent : Option (List Bytes)) : Option (List Bytes) :=
+  match own with
+  | some de => some (de ++ parent.getD [])
+  | none => parent
+
 /-- The todo element pushed for a new node (resolve.go 364–380). -/
 def childTodo (cur : Todo) (d : Dep) (c : VersionKey) : Todo :=
   { key := c
     includesDependencies := includesDependencies d.typ
-    exclusions := match d.exclusions with
-      | some de => some (de ++ cur.exclusions.getD [])
-      | none => cur.exclusions }
+    exclusions := mergeExcl d.exclusions cur.exclusions }
 
 /-- Body of `for _, d := range imps` (resolve.go 229–389). An error carries the
 `requirements` map as mutated so far (the retry loop keeps it). -/
@@ -470,7 +481,7 @@ def loop (u : Universe) (mgt : List (PackageKey × Bytes)) : Nat → Bool → St
       if cur.includesDependencies then
         loop u mgt fuel false { s with done := s.done ++ [(curId, first, cur)] }
       else
-        match imports u cur.key.vk { test := first, opt := first, provided := first } with
+        match imports u cur.key.vk (optsOf first) with
         | none => .error (.notfound, s.requirements)
         | some imps =>
           match processDeps u mgt first cur imps s with
